@@ -54,7 +54,9 @@ def build_api(position, words):
         name = f'Call{i}'
         inner = dict(name=f'In{i}', fields=[dict(name=w), dict(name='other')])
         if position == 'top_field':
-            req = dict(name=M, fields=[dict(name=w), dict(name='plain')])
+            # REQUIRED and travelling as a query parameter over REST (no body): the JSON key on the wire must be the original name
+            req = dict(name=M, fields=[dict(name=w, required=True), dict(name='plain')])
+            http = [dict(verb='get', uri=f'/v1/m{i}')]
         elif position == 'nested_field':
             msgs.append(inner)
             req = dict(name=M, fields=[dict(name='inner', type=f'In{i}'), dict(name='plain')])
